@@ -94,3 +94,94 @@ Example C03_number_guard_inhabited :
 Proof. exact number_guard_inhabited. Qed.
 
 (* END numerals *)
+
+(* BEGIN token-level grammar *)
+(* Token level: the model parser (Model/Parser.v = parser/*.go as of the fix that reports non-assignable targets)
+   accepts exactly the manual's grammar (Spec/LuaGrammar.v, longest-match relations over token kinds).
+   "Accepts" = BeginAnalyze returns no parse error; lexical errors travel with the tokens (lerrs) and are returned
+   unchanged; 31 errors in total abort the analysis (PRTooMany) - with zero parse errors only a chunk whose tokens
+   carry >= 31 lexical errors gets there.  tokens_ok ts = ts ends with its only EOF token (what lex_all produces:
+   lex_all_wf, kept by parser_view) and has no token of kind "illegal" (such a token is skipped at statement level
+   without a PARSE error - its lexical error has been reported).  Proved for every numeral classifier `classify`
+   and every fuel; fuel_of_tokens is what parse_bytes uses. *)
+From LH Require Import Model.Ast Model.LuaFront Spec.LuaGrammar.
+From LH Require Import Proofs.ParserGrammarCompleteTop Proofs.ParserGrammarSoundMain Proofs.ParserGrammarIff
+  Proofs.ParserGrammarFlagged.
+
+(* valid code is never flagged by the parser: all 20 non-terminals, by the combined induction over the grammar
+   (ParserGrammarCompleteMain.complete_all) + termination with this fuel (ParserTotalMain) *)
+Theorem C03_parse_complete : forall classify ts, Chunk classify ts ->
+  exists r, parse_tokens classify (fuel_of_tokens ts) ts = Ok r /\
+            (if Nat.leb 31 (length (flat_map lerrs ts)) then r = PRTooMany
+             else exists b, r = PR b (flat_map lerrs ts) []).
+Proof. exact parse_tokens_complete. Qed.
+Print Assumptions C03_parse_complete.
+
+(* ... as the correspondence leg c03.parse runs it: bytes -> lex_all -> parser_view -> parse_tokens *)
+Theorem C03_parse_complete_bytes : forall classify gbk_runes bs ts,
+  lex_all gbk_runes bs = Ok ts -> Chunk classify (parser_view ts) ->
+  exists r, parse_bytes gbk_runes classify bs = Ok r /\
+            (if Nat.leb 31 (length (flat_map lerrs (parser_view ts))) then r = PRTooMany
+             else exists b, r = PR b (flat_map lerrs (parser_view ts)) []).
+Proof. exact parse_bytes_complete. Qed.
+Print Assumptions C03_parse_complete_bytes.
+
+(* no parse error => the tokens are a Chunk of the grammar (plain Chunk, not ChunkLoose: `(a) = 1` is rejected now).
+   Any fuel: a run that returns at all. *)
+Theorem C03_parse_sound : forall classify fuel ts b le,
+  tokens_ok ts = true -> parse_tokens classify fuel ts = Ok (PR b le []) -> Chunk classify ts.
+Proof. exact parse_tokens_sound. Qed.
+Print Assumptions C03_parse_sound.
+
+Theorem C03_parse_sound_bytes : forall classify gbk_runes bs ts b le,
+  lex_all gbk_runes bs = Ok ts -> no_illegal_b (parser_view ts) = true ->
+  parse_bytes gbk_runes classify bs = Ok (PR b le []) -> Chunk classify (parser_view ts).
+Proof. exact parse_bytes_sound. Qed.
+Print Assumptions C03_parse_sound_bytes.
+
+(* the guard is necessary: every Chunk satisfies it *)
+Theorem C03_chunk_tokens_ok : forall classify ts, Chunk classify ts -> tokens_ok ts = true.
+Proof. exact chunk_tokens_ok. Qed.
+Print Assumptions C03_chunk_tokens_ok.
+
+(* both directions, guard on the right-hand side *)
+Theorem C03_parse_iff : forall classify ts,
+  (length (flat_map lerrs ts) < 31)%nat ->
+  (Chunk classify ts <->
+   tokens_ok ts = true /\
+   exists b, parse_tokens classify (fuel_of_tokens ts) ts = Ok (PR b (flat_map lerrs ts) [])).
+Proof. exact parse_tokens_iff_full. Qed.
+Print Assumptions C03_parse_iff.
+
+(* Diagnostics level, whole pipeline (bytes -> lex_all -> parser_view -> parse_tokens), no guard left:
+   a file gets NO syntax diagnostic (no lexical error, no parse error, no 31-error abort) exactly when its token
+   stream is a Chunk and no token carries a lexical error.  Uses ParserGrammarLexIllegal.lex_all_illegal (a token of
+   kind "illegal" always carries LeIllegal) to discharge no_illegal_b, and "no parse error => every token was
+   consumed" to identify the returned lexical errors with those of the tokens. *)
+Theorem C03_flagged_iff : forall classify gbk_runes bs ts r,
+  lex_all gbk_runes bs = Ok ts -> parse_bytes gbk_runes classify bs = Ok r ->
+  (flagged r = false <-> Chunk classify (parser_view ts) /\ flat_map lerrs (parser_view ts) = []).
+Proof. exact flagged_iff. Qed.
+Print Assumptions C03_flagged_iff.
+
+(* non-vacuity: a 133-token program using every statement form, attributes, goto/label, method and vararg
+   syntax, table fields of all three kinds, unary/binary/right-associative operators is a Chunk; its tokens satisfy
+   the guard *)
+Definition c03_demo_src : list N := [108; 111; 99; 97; 108; 32; 116; 32; 61; 32; 123; 49; 44; 32; 120; 32; 61; 32; 50; 59; 32; 91; 51; 93; 32; 61; 32; 102; 40; 97; 46; 98; 58; 99; 40; 46; 46; 46; 41; 44; 32; 45; 35; 121; 32; 94; 32; 50; 41; 125; 10; 102; 111; 114; 32; 105; 32; 61; 32; 49; 44; 32; 49; 48; 32; 100; 111; 32; 105; 102; 32; 105; 32; 37; 32; 50; 32; 61; 61; 32; 48; 32; 116; 104; 101; 110; 32; 103; 111; 116; 111; 32; 101; 32; 101; 108; 115; 101; 105; 102; 32; 116; 32; 116; 104; 101; 110; 32; 98; 114; 101; 97; 107; 32; 101; 108; 115; 101; 32; 116; 91; 105; 93; 32; 61; 32; 110; 111; 116; 32; 116; 32; 101; 110; 100; 32; 58; 58; 101; 58; 58; 32; 101; 110; 100; 10; 102; 111; 114; 32; 107; 44; 32; 118; 32; 105; 110; 32; 112; 97; 105; 114; 115; 40; 116; 41; 32; 100; 111; 32; 114; 101; 112; 101; 97; 116; 32; 107; 32; 61; 32; 107; 32; 47; 47; 32; 49; 32; 117; 110; 116; 105; 108; 32; 40; 107; 41; 32; 119; 104; 105; 108; 101; 32; 118; 32; 100; 111; 32; 118; 32; 61; 32; 118; 32; 62; 62; 32; 49; 32; 101; 110; 100; 32; 101; 110; 100; 10; 102; 117; 110; 99; 116; 105; 111; 110; 32; 116; 46; 109; 58; 110; 40; 97; 44; 32; 46; 46; 46; 41; 32; 108; 111; 99; 97; 108; 32; 99; 32; 60; 99; 108; 111; 115; 101; 62; 44; 32; 100; 32; 60; 99; 111; 110; 115; 116; 62; 32; 61; 32; 110; 105; 108; 32; 114; 101; 116; 117; 114; 110; 32; 97; 32; 46; 46; 32; 39; 120; 39; 44; 32; 46; 46; 46; 32; 101; 110; 100; 10; 114; 101; 116; 117; 114; 110; 32; 102; 117; 110; 99; 116; 105; 111; 110; 40; 41; 32; 114; 101; 116; 117; 114; 110; 32; 101; 110; 100; 59].
+Definition c03_demo_tokens : list ltok :=
+  match lex_all (fun _ => 0%Z) c03_demo_src with Ok ts => parser_view ts | _ => [] end.
+Example C03_chunk_inhabited :
+  Chunk classify_tok c03_demo_tokens /\ length c03_demo_tokens = 133%nat /\ tokens_ok c03_demo_tokens = true.
+Proof.
+  split; [|split; vm_compute; reflexivity].
+  eapply (parse_tokens_sound classify_tok (fuel_of_tokens c03_demo_tokens)); vm_compute; reflexivity.
+Qed.
+
+(* the former finding (`(a) = 1`, `a, (b) = 1, 2` accepted) is repaired in the modelled code: both are flagged *)
+Definition c03_paren_src1 : list N := [40; 97; 41; 32; 61; 32; 49].
+Definition c03_paren_src2 : list N := [97; 44; 32; 40; 98; 41; 32; 61; 32; 49; 44; 32; 50].
+Example C03_paren_target_rejected :
+  (exists b, parse_bytes (fun _ => 0%Z) classify_tok c03_paren_src1 = Ok (PR b [] [PeCannotAssign])) /\
+  (exists b, parse_bytes (fun _ => 0%Z) classify_tok c03_paren_src2 = Ok (PR b [] [PeCannotAssign])).
+Proof. split; eexists; vm_compute; reflexivity. Qed.
+(* END token-level grammar *)
